@@ -1568,6 +1568,16 @@ class _DNF:
     def __bool__(self) -> bool:
         return bool(self._filters)
 
+    @staticmethod
+    def _hashable(predicate: tuple) -> tuple:
+        # The value of an ``in`` / ``not in`` predicate is a collection
+        def convert(value):
+            if isinstance(value, (set, frozenset)):
+                value = sorted(value, key=str)  # independent of the hash seed
+            return tuple(value) if isinstance(value, list) else value
+
+        return tuple(convert(value) for value in predicate)
+
     @classmethod
     def normalize(cls, filters: _And | _Or | list | tuple | None):
         """Convert raw filters to the `_Or(_And)` DNF representation"""
@@ -1575,11 +1585,14 @@ class _DNF:
             result = None
         elif isinstance(filters, list):
             conjunctions = filters if isinstance(filters[0], list) else [filters]
-            result = cls._Or([cls._And(conjunction) for conjunction in conjunctions])
+            result = cls._Or(
+                cls._And(map(cls._hashable, conjunction))
+                for conjunction in conjunctions
+            )
         elif isinstance(filters, tuple):
             if isinstance(filters[0], tuple):
                 raise TypeError("filters must be List[Tuple] or List[List[Tuple]]")
-            result = cls._Or((cls._And((filters,)),))
+            result = cls._Or((cls._And((cls._hashable(filters),)),))
         elif isinstance(filters, cls._Or):
             result = cls._Or(se for e in filters for se in cls.normalize(e))
         elif isinstance(filters, cls._And):
